@@ -23,12 +23,13 @@ PROPOSED_FINDINGS = [
     {"id": "F9", "property": "C07", "status": "known",
      "what": "SEQUENCE_encode_oer: a failing output callback aborts the process instead of giving -1/EIO: assert(ret == 0) "
              "after the first preamble bit, and the return value of asn_put_aligned_flush (preamble, extension bitmap) is "
-             "ignored, so the encoder reports success and asn_encode's assert(er.encoded == -1) fires",
+             "ignored, so the encoder reports success and asn_encode's assert(er.encoded == -1) fires (inside an extension addition: "
+             "the second pass of oer_open_type_put counts one octet less and its assert(serialized_byte_count == er.encoded) fires)",
      "witness": {"module": "M DEFINITIONS AUTOMATIC TAGS ::= BEGIN S ::= SEQUENCE { a INTEGER (0..255), b BOOLEAN OPTIONAL } END",
                  "type": "S", "op": "enccb oer 1 (seq (a (int 5)))", "expect": "^CRASH .*Assertion"},
      "matcher": "syntax oer, type contains a SEQUENCE with a preamble (OPTIONAL/DEFAULT member or extension marker), callback "
-                "failure injected; C dies in `SEQUENCE_encode_oer: Assertion` or (encoder reported success) `asn_encode: Assertion "
-                "er.encoded == -1`"},
+                "failure injected; C dies in `SEQUENCE_encode_oer: Assertion`, in `oer_open_type_put: Assertion` (extensible SEQUENCE) or "
+                "(encoder reported success) in `asn_encode: Assertion er.encoded == -1`"},
     {"id": "F7", "property": "C07", "status": "known",
      "what": "SET_OF_encode_uper / SET_OF_encode_der: an element that fails to encode makes SET_OF__encode_sorted return NULL, "
              "which is dereferenced (constr_SET_OF.c:1080 / :481) instead of returning -1",
@@ -57,8 +58,9 @@ PROPOSED_FINDINGS = [
              "invocations; asn_encode_to_new_buffer grows until allocation fails and then spins)",
      "witness": {"module": "M DEFINITIONS AUTOMATIC TAGS ::= BEGIN B ::= BIT STRING (SIZE(8)) END",
                  "type": "B", "op": "encraw oer -1 (bs - 0)", "expect": "^HANG runaway"},
-     "matcher": "syntax oer, type contains BIT STRING, invalid (too short / zero-initialised) value, the harness callback sees more "
-                "than 2^20 invocations and the last chunk is all zeros"},
+     "matcher": "syntax oer, type contains a fixed-size BIT STRING, planted defect = too short / zero-initialised BIT STRING; the harness "
+                "callback sees more than 2^20 invocations with an all-zero last chunk, or (inside an extension addition, where the loop "
+                "runs against oer_open_type_put's internal counting callback) the driver's per-line guard reports HANG"},
 ]
 
 
@@ -203,6 +205,7 @@ def c07_feats(t, env):
             if t["name"] in seen: return
             walk(env[t["name"]], seen | {t["name"]}); return
         if k == "SEQUENCE" and (t.get("ext") is not None or any(c.get("opt") is not None for c in t["comps"])): f.add("seq_preamble")
+        if k == "BIT STRING" and t.get("size") and not t["size"]["ext"] and t["size"]["lo"] == t["size"]["hi"]: f.add("bits_fixed_size")
         if k in ("SEQUENCE", "SET", "CHOICE"):
             for c in t["comps"]: walk(c["type"], seen)
         if k in ("SEQUENCE OF", "SET OF"): walk(t["elem"], seen)
@@ -227,16 +230,18 @@ class Case:
 C_ENV = {"ASAN_OPTIONS": "detect_leaks=0:abort_on_error=0:allocator_may_return_null=1"}
 
 
-def run_safe(ctx, exe, lines, timeout):
-    """run_c_bisect with a wall-clock limit: a batch that hangs is bisected down to `HANG` lines"""
+def run_safe(ctx, exe, lines, timeout=None):
+    """run_c_bisect with a wall-clock limit proportional to the batch (30 s + 20 ms per line + 2 s per MB of input; every
+    crash inside costs a process restart, hence the generous slope): a batch that exceeds it is bisected down to `HANG` lines"""
     if not lines: return []
+    limit = 30 + 0.02 * len(lines) + 2e-6 * sum(len(l) for l in lines)
     try:
-        outs, _ = ctx.run_c_bisect(exe, lines, timeout=timeout, env=C_ENV)
+        outs, _ = ctx.run_c_parallel(exe, lines, jobs=8, timeout=limit, env=C_ENV)
         return outs
     except subprocess.TimeoutExpired:
-        if len(lines) == 1: return ["HANG (no answer within %ds)" % timeout]
+        if len(lines) == 1: return ["HANG (no answer within %ds)" % limit]
         mid = len(lines) // 2
-        return run_safe(ctx, exe, lines[:mid], timeout) + run_safe(ctx, exe, lines[mid:], max(10, timeout // 2))
+        return run_safe(ctx, exe, lines[:mid]) + run_safe(ctx, exe, lines[mid:])
 
 
 def run_token(raw):
@@ -308,6 +313,9 @@ def match_known(ctx, case, key, out):
         if case.syn == "oer" and kind in ("cb", "rawk") and "seq_preamble" in case.feats:
             if "SEQUENCE_encode_oer: Assertion `ret == 0'" in o:
                 return ctx.match_finding(lambda f: f["id"] == "F9")
+            # the unchecked preamble flush inside an extension addition: the second pass of oer_open_type_put counts one octet less
+            if "ext:SEQUENCE" in case.feats and "oer_open_type_put: Assertion `serialized_byte_count == (size_t)er.encoded'" in o:
+                return ctx.match_finding(lambda f: f["id"] == "F9")
             if kind == "cb" and "asn_encode: Assertion `er.encoded == -1'" in o and rk and int(rk["ret"]) >= 0:
                 return ctx.match_finding(lambda f: f["id"] == "F9")
         if case.syn == "uper" and kind == "cb" and "SET OF" in case.feats and "asn_encode: Assertion `er.encoded == -1'" in o \
@@ -319,8 +327,10 @@ def match_known(ctx, case, key, out):
         if case.syn in ("uper", "der") and "SET OF" in case.feats and "constr_SET_OF.c" in o and "null pointer" in o and not case.valid:
             return ctx.match_finding(lambda f: f["id"] == "F7")
         return None
-    if o.startswith("HANG runaway") and case.syn == "oer" and "BIT STRING" in case.feats and not case.valid \
-       and re.search(r"last chunk (00)+$", o):
+    if o.startswith("HANG") and case.syn == "oer" and "bits_fixed_size" in case.feats and not case.valid \
+       and (case.kind.startswith("size-short") or case.kind == "omit:BIT_STRING") \
+       and (o == "HANG" or re.search(r"^HANG runaway.*last chunk (00)+$", o)):
+        # plain HANG (the driver's per-line guard): the loop runs against an internal callback (oer_open_type_put's counting pass)
         return ctx.match_finding(lambda f: f["id"] == "F78")
     if kind == "new" and o.startswith("buf=nonnull encoded=-1"):
         return ctx.match_finding(lambda f: f["id"] == "F39")
@@ -486,7 +496,7 @@ def process_module(ctx, st, m, items, opts=DEFAULT_OPTS):
         # the library's own callbacks would loop forever)
         t0 = time.time()
         for c in cases: c.lines["raw"] = f"@{c.tn} encraw {c.syn} -1 {c.sx}"
-        outs0 = run_safe(ctx, exe, [c.lines["raw"] for c in cases], 120)
+        outs0 = run_safe(ctx, exe, [c.lines["raw"] for c in cases])
         for c, o in zip(cases, outs0): c.raw = o
         # phase 1: clean callback run, new buffer
         lines = []; live = [c for c in cases if not dead(c.raw)]
@@ -494,7 +504,7 @@ def process_module(ctx, st, m, items, opts=DEFAULT_OPTS):
             c.lines["clean"] = f"@{c.tn} enccb {c.syn} -1 {c.sx}"
             c.lines["new"] = f"@{c.tn} encnew {c.syn} {c.sx}"
             lines += [c.lines["clean"], c.lines["new"]]
-        outs = run_safe(ctx, exe, lines, 120)
+        outs = run_safe(ctx, exe, lines)
         t1 = time.time()
         for i, c in enumerate(live):
             c.clean, c.new = outs[2 * i: 2 * i + 2]
@@ -522,7 +532,7 @@ def process_module(ctx, st, m, items, opts=DEFAULT_OPTS):
             for k in ks:
                 c.lines[("cb", k)] = f"@{c.tn} enccb {c.syn} {k} {c.sx}"; lines.append(c.lines[("cb", k)]); where.append((c, "cb", k))
                 c.lines[("rawk", k)] = f"@{c.tn} encraw {c.syn} {k} {c.sx}"; lines.append(c.lines[("rawk", k)]); where.append((c, "rawk", k))
-        outs2 = run_safe(ctx, exe, lines, 240)
+        outs2 = run_safe(ctx, exe, lines)
         t2 = time.time()
         for (c, what, x), o in zip(where, outs2):
             {"buf": c.buf, "cb": c.cb, "rawk": c.rawk}[what][x] = o
@@ -659,7 +669,7 @@ def replay(ctx, path):
     names = re.findall(r"^\s*([A-Za-z][\w-]*)\s*::=", r["module"], re.M)
     b = bundle.Bundle("replay", r["module"], names, driver_sources=DS, opts=tuple(r.get("opts") or DEFAULT_OPTS))
     exe = b.build()
-    outs = run_safe(ctx, exe, [r["op"]], 60)
+    outs = run_safe(ctx, exe, [r["op"]])
     print("replay:", r["op"][:300], "=>", str(outs[0])[:600])
     if r.get("model_op"):
         ctx.lean()
@@ -683,7 +693,12 @@ def run(ctx):
     ctx.findings += [f for f in PROPOSED_FINDINGS if f["id"] not in ids]
     ctx.lean()
     st = Stats()
+    # witnesses written for this driver's operations only (shared entries may carry another property's witness, e.g. F7/C14)
+    known_ops = {"encraw", "encbuf", "encnew", "enccb", "rt", "enc", "dec", "echo", "check", "cmp", "transcode", "decchunks"}
+    allf = ctx.findings
+    ctx.findings = [f for f in allf if f.get("witness", {}).get("op", "").split(" ")[0] in known_ops]
     gfind.replay_witnesses(ctx, driver_sources=DS)
+    ctx.findings = allf
     rng = ctx.rng
     nb = int(os.environ.get("C07_NB", 5 if ctx.quick else 20))
     nvals = 5 if ctx.quick else 16
